@@ -117,6 +117,12 @@ require('./__samlang_loader__.js')(binary).{}();
   Ok(SourcesCompilationResult { text_code_results, wasm_file })
 }
 
+/// Verification hooks (only compiled with `--cfg samlang_verif`): expose the HIR to the harness.
+#[cfg(samlang_verif)]
+pub mod verif {
+  pub use crate::hir_lowering::verif_compile_sources_to_hir as compile_sources_to_hir;
+}
+
 #[cfg(test)]
 mod test {
   use pretty_assertions::assert_eq;
